@@ -21,6 +21,34 @@ pub fn bases() -> Vec<String> {
     b
 }
 
+/// A coarse class of the element an edit is inside (boundary type and tilt class of a wall,
+/// kind of a space or bridge), so that rare classes get their own stratification cell.
+fn discriminator(m: &Value, gptr: &str, e: &MEdit) -> String {
+    let ptr = match e {
+        MEdit::KeyDeleted { ptr } | MEdit::ItemDeleted { ptr } | MEdit::ArrayEmptied { ptr } | MEdit::ArrayDuplicated { ptr }
+        | MEdit::ArrayTruncated { ptr } | MEdit::IdRedirected { ptr, .. } | MEdit::NumberZeroed { ptr } | MEdit::NumberNegated { ptr } => ptr.clone(),
+        _ => return String::new(),
+    };
+    let parts: Vec<&str> = ptr.split('/').collect();
+    if parts.len() < 3 {
+        return String::new();
+    }
+    let elem = m.pointer(&format!("/{}/{}", parts[1], parts[2]));
+    match (parts[1], elem) {
+        ("walls", Some(w)) => {
+            let tilt = w["geometry"]["tilt"].as_f64().unwrap_or(90.0);
+            let tc = if tilt < 60.0 { "top" } else if tilt > 120.0 { "bottom" } else { "side" };
+            format!("{}:{}:{}", w["bounds"].as_str().unwrap_or(""), tc, if w["next_to"].is_string() { "adj" } else { "" })
+        }
+        ("spaces", Some(s)) => format!("{}:{}", s["kind"].as_str().unwrap_or("CONDITIONED"), s["inside_tenv"].as_bool().unwrap_or(true)),
+        ("thermal_bridges", Some(t)) => t["kind"].as_str().unwrap_or("").to_string(),
+        _ => {
+            let _ = gptr;
+            String::new()
+        }
+    }
+}
+
 pub fn keys_of(o: &StepOutcome) -> Vec<(Value, String)> {
     let mut out = vec![];
     match o {
@@ -188,7 +216,7 @@ pub fn run(tier: &str, seed: u64, replay: Option<String>) -> i32 {
                 steps.push(s);
             } else {
                 cells
-                    .entry(format!("{}|{}", e.generic_ptr(), e.kind_name()))
+                    .entry(format!("{}|{}|{}", e.generic_ptr(), e.kind_name(), discriminator(&v, &e.generic_ptr(), e)))
                     .or_default()
                     .push(s);
             }
